@@ -3,7 +3,7 @@ import itertools
 from lib.framework import Check
 from props.C16 import coqchk_extra
 
-KINDS = ("vec", "arr", "list", "map", "carr", "il", "fv", "deq", "set", "str")
+KINDS = ("vec", "arr", "list", "map", "carr", "il", "fv", "deq", "set", "str", "ui")
 MAXN = 6
 
 
@@ -11,7 +11,7 @@ def valid(adaptor, kind, mode, n):
     """the combinations harness/iter_driver.cpp implements (the others do not exist in C++: a built-in array or an
     initializer list cannot be an rvalue container object, `enumerate({})` cannot deduce its element type, an lvalue
     std::initializer_list has no rbegin())"""
-    if kind in ("vec", "list", "map", "fv", "deq"):
+    if kind in ("vec", "list", "map", "fv", "deq", "ui"):
         return mode in "lcrmksq"
     if kind in ("set", "str"):
         return mode in "crmksq"
@@ -37,15 +37,17 @@ def wl(l):
 class C20(Check):
     prop = "C20"
     title = "enumerate and reverse visit every element once, in the right order, in place"
-    vfiles = ["Properties/Properties_C20.v", "Extract/Extract_Misc.v"]
+    vfiles = ["Properties/Properties_C20.v", "Tie/Tie_C20.v", "Extract/Extract_Misc.v"]
     cpp = dict(name="iter", driver_src="harness/iter_driver.cpp")
     ocaml = dict(name="misc", extracted="misc_model.ml", glue=("glue_base.ml",), driver="misc_driver.ml")
     corpus = "C20.txt"
     design_ref = "DESIGN.md section 6, C20"
     technique = ("Coq proof over an executable model of the range-for loop over enumerate()/reverse() (iterator = position, explicit fuel, "
-                 "container threaded through the loop; invariant proofs by induction) + extraction-based differential test against the C++ "
+                 "container threaded through the loop; invariant proofs by induction); the members of enumerate_proxy, its iterator, the owning "
+                 "adaptor and the reverse adaptors are re-translated from the source by clang on every run and proved equal to the model's "
+                 "e_begin/e_end/e_ne/e_incr/e_deref (Tie_C20) + extraction-based differential test against the C++ "
                  "under AddressSanitizer for every container kind and value category")
-    level_text = ("Sixteen theorems in Coq for ALL element types, ranges of ANY length (also empty) and ANY update function: the range-for over "
+    level_text = ("Eighteen theorems in Coq for ALL element types, ranges of ANY length (also empty) and ANY update function: the range-for over "
                   "enumerate(c) ends within length+1 tests of `b != e` (so after exactly length(c) iterations), never dereferences a non-element, "
                   "visits exactly (0,c0),(1,c1),... and leaves the container as [f 0 c0; f 1 c1; ...] when the body assigns f index value through "
                   "the proxy (map g c for an index-blind body, c for a read-only one); the same for owned (temporary / moved / initializer-list) "
@@ -55,12 +57,18 @@ class C20(Check):
                   "begin() != end() tests give what a fresh adaptor gives; two ranges alive at once are independent: whatever the body of a loop over an "
                   "adaptor of a does with another container b (e.g. a whole loop over an adaptor of b), the outer loop visits exactly a's elements and "
                   "a ends as the pointwise image, and b is unchanged unless that code writes it; an owning adaptor is a value (a copied or moved adaptor shows "
-                  "its own elements whatever becomes of the source). The model (iterator = position, index incremented with it, end detected by position only, "
+                  "its own elements whatever becomes of the source). Tie_C20 (10 theorems, re-proved on every run over Gen/GenEnumerate.v, which gen/tr_enumerate.py writes "
+                  "from clang's AST of enumerate.hpp/reverse.hpp): the constructor stores (it, index), begin()/end() = {begin_,0}/{end_,0} are e_begin/e_end, "
+                  "operator!= is e_ne, operator++ / operator++(int) are e_incr (returning the object / its old value), both operator* are e_deref, the owning "
+                  "adaptor's begin()/end() are e_begin/e_end of the owned copy, reverse_proxy hands back the iterators it was built from and detail::reverse "
+                  "uses crbegin()/crend(); an unrecognised construct (e.g. std::move of a member in begin()) is IUnknown, on which no obligation is provable. "
+                  "The model (iterator = position, index incremented with it, end detected by position only, "
                   "reverse iterator with base b denoting element b-1) is tied to /repo by running the extracted model and the real adaptors (ASan/"
                   "UBSan build of the working tree) on every container kind x value category x length 0..5 (0..6 thorough) x several element "
                   "lists and comparing visits, per-visit address identity with the container's own elements, and contents after writing through "
                   "the adaptor; an oracle built from the spec (combine (seq 0 n) c, rev c, map f c) judges every differing observation")
-    level_note = ("trusted: Coq kernel, ExtrOcamlBasic extraction, OCaml compiler, the differential harness. ASSUMED (exercised by the driver only, "
+    level_note = ("trusted: Coq kernel, ExtrOcamlBasic extraction, OCaml compiler, the differential harness, gen/tr_enumerate.py's reading of the clang AST "
+                  "and the meaning Misc/IterLang.v gives to the member expressions (an underlying iterator is a position; fields by declaration order). ASSUMED (exercised by the driver only, "
                   "under AddressSanitizer): C++ overload resolution among the enumerate()/reverse() overloads (T&, const T&, T&&, initializer_list&&, "
                   "T(&)[N]), lifetime extension of the temporary adaptor (and of the container moved into it) over the whole range-for statement, "
                   "the containers' own iterators (std::vector/array/list/map, std::reverse_iterator, fixed_vector's rbegin/rend), "
@@ -71,8 +79,11 @@ class C20(Check):
             "std::array, list, map, built-in array, initializer_list, fixed_vector, deque, set, std::string}, category in {lvalue with write-through, const lvalue, temporary "
             "created inside the for statement, std::move of a local, CONST temporary returned by a function, static_cast<const T&&> of a temporary, "
             "std::move of a const local}, length 0..5 (0..6 thorough), each with several element lists (ascending, "
-            "all-equal, random distinct from VERIF_SEED); plus REUSE scenarios on vector/list/map/fixed_vector, lengths 0..5(6): one adaptor object iterated "
-            "twice (over an lvalue and owning a temporary), enumerate-in-enumerate and reverse-in-enumerate over the same container, adaptor created "
+            "all-equal, random distinct from VERIF_SEED); the kind `ui` is a user-defined multi-pass range whose bidirectional iterator owns a "
+            "std::shared_ptr and a std::string, so that a MOVED-FROM iterator is visibly not the iterator it was (all modes, reuse and manual scenarios); "
+            "plus REUSE scenarios on vector/list/map/fixed_vector/ui, lengths 0..5(6): one adaptor object iterated "
+            "twice (over an lvalue and owning a temporary), ONE named adaptor (over an lvalue, a const lvalue, owning a temporary) iterated by three "
+            "range-for statements, the second writing through it, then begin() and end() called twice each on it and both iterator pairs run, enumerate-in-enumerate and reverse-in-enumerate over the same container, adaptor created "
             "before an in-place change of all elements, begin()!=end() asked before/after a loop and through stored iterators; and MULTI-CONTAINER scenarios with two / three different "
             "containers of one kind, element type and length alive at once (built-in arrays of equal extent, std::array, vector, list, fixed_vector; "
             "lvalue and owning adaptors): every nesting of {reverse, enumerate} in {reverse, enumerate} over different containers with and without "
@@ -110,9 +121,11 @@ class C20(Check):
                         for l in lists:
                             yield "%s %s %s %s" % (ad, kind, mode, wl(l)), "exh-%s-%s" % (ad, mode)
         # the SAME adaptor object / container used more than once (state that would survive between uses)
-        for sc in ("en2", "rv2", "enen", "enrv", "enmod", "rvmod", "enbe", "rvbe", "nest", "cad"):
-            for kind in ("vec", "list", "map", "fv"):
-                for mode in ("lr" if sc in ("en2", "rv2", "enbe", "rvbe", "nest", "cad") else "l"):
+        # ("ui": a range whose iterator owns a shared_ptr / std::string, so that a moved-from iterator is not the iterator it was;
+        #  en3 / rv3: ONE named adaptor iterated three times by range-for, the second pass writing, then begin()/end() twice each)
+        for sc in ("en2", "rv2", "en3", "rv3", "enen", "enrv", "enmod", "rvmod", "enbe", "rvbe", "nest", "cad"):
+            for kind in ("vec", "list", "map", "fv", "ui"):
+                for mode in ("lcr" if sc in ("en3", "rv3") else "lr" if sc in ("en2", "rv2", "enbe", "rvbe", "nest", "cad") else "l"):
                     for n in range(0, maxn + 1):
                         lists = [list(range(10, 10 + n)), [7] * n]
                         for _ in range(max(1, reps // 2)):
@@ -146,7 +159,7 @@ class C20(Check):
         # MANUAL iteration over begin()/end(): ++it, it++, the old value returned by it++, a copied iterator continued,
         # std::for_each; for reverse also ==, std::distance, std::next, copying out
         for ad in ("en", "rv"):
-            for kind in ("vec", "list", "map", "fv"):
+            for kind in ("vec", "list", "map", "fv", "ui"):
                 for mode in "lr":
                     for n in range(0, maxn + 1):
                         for l in [list(range(10, 10 + n))] + [rng.sample(range(-50, 1000), n) for _ in range(max(1, reps // 2))]:
@@ -172,7 +185,7 @@ class C20(Check):
         # longer ranges for the kinds whose length is not a template parameter
         for _ in range(60 if tier == "quick" else 1500):
             ad = rng.choice(("en", "rv"))
-            kind = rng.choice(("vec", "list", "map", "fv"))
+            kind = rng.choice(("vec", "list", "map", "fv", "ui"))
             mode = rng.choice("lcrmksq")
             n = rng.choice([7, 8, 16, 17, 33, rng.randint(6, 80)])
             yield "%s %s %s %s" % (ad, kind, mode, wl([rng.randint(-1000, 1000) for _ in range(n)])), "long"
